@@ -6,11 +6,11 @@ import (
 	"context"
 	"time"
 
+	"go.opentelemetry.io/collector/component/componenttest"
 	"go.opentelemetry.io/collector/config/configretry"
 	"go.opentelemetry.io/collector/consumer/consumererror"
 	"go.opentelemetry.io/collector/consumer/consumererror/xconsumererror"
 	"go.opentelemetry.io/collector/exporter/exporterhelper"
-	"go.opentelemetry.io/collector/exporter/exportertest"
 	"go.opentelemetry.io/collector/pdata/plog"
 	"go.opentelemetry.io/collector/pdata/pprofile"
 )
@@ -49,19 +49,29 @@ func c05OtherSignal(_ int, base error) error {
 	return consumererror.NewLogs(base, plog.NewLogs())
 }
 
+func xopts(rcfg configretry.BackOffConfig, timeout time.Duration, queue bool) []exporterhelper.Option {
+	o := []exporterhelper.Option{exporterhelper.WithRetry(rcfg), exporterhelper.WithTimeout(exporterhelper.TimeoutConfig{Timeout: timeout})}
+	if queue {
+		qc := exporterhelper.NewDefaultQueueConfig()
+		qc.WaitForResult, qc.NumConsumers = true, 1
+		o = append(o, exporterhelper.WithQueue(qc))
+	}
+	return o
+}
+
 func init() {
 	c05Throttle = exporterhelper.NewThrottleRetry
 	bg := context.Background()
 	c05Signals = []c05Signal{
 		{name: "profiles",
-			build: func(rcfg configretry.BackOffConfig, timeout time.Duration, push func(context.Context, []int) error) (*c05Exp, error) {
-				e, err := NewProfilesExporter(bg, exportertest.NewNopSettings(exportertest.NopType), &struct{}{},
+			build: func(rcfg configretry.BackOffConfig, timeout time.Duration, queue bool, push func(context.Context, []int) error) (*c05Exp, error) {
+				e, err := NewProfilesExporter(bg, c05Settings(), &struct{}{},
 					func(ctx context.Context, pd pprofile.Profiles) error { return push(ctx, c05ProfileIDs(pd)) },
-					exporterhelper.WithRetry(rcfg), exporterhelper.WithTimeout(exporterhelper.TimeoutConfig{Timeout: timeout}))
+					xopts(rcfg, timeout, queue)...)
 				if err != nil {
 					return nil, err
 				}
-				return &c05Exp{func(ctx context.Context, ids []int) error { return e.ConsumeProfiles(ctx, c05Profiles(ids)) }, func() { _ = e.Shutdown(bg) }}, nil
+				return &c05Exp{func(ctx context.Context, ids []int) error { return e.ConsumeProfiles(ctx, c05Profiles(ids)) }, func() { _ = e.Shutdown(bg) }, func() error { return e.Start(bg, componenttest.NewNopHost()) }}, nil
 			},
 			partial: func(base error, rest []int) error { return xconsumererror.NewProfiles(base, c05Profiles(rest)) }},
 	}
